@@ -331,6 +331,20 @@ RouteForms == UNION {{Behind(x) : x \in CondForms(at)} \cup {InEach(x) : x \in C
                            Behind(InEach(Call("list", <<RP(at, "a"), P(TRUE, <<C("src"), C("a")>>)>>))),
                            Behind(Call("nth", <<RP(at, "b"), RP(~at, "zi")>>)), Behind(Call("append", <<RP(at, "b"), RP(~at, "a")>>))} : at \in BOOLEAN}
 
+\* ------------------------------------------------------------------ strings that LOOK like paths (start with $ or @) but are not
+\* JSONPaths: "$5.00", "@alice", "$[", "$.".  Arguments are routed by their first character; a string that does not parse
+\* as a path is a plain string (quote's description: "@.x" is a path unless quoted - these are not paths at all).  In every
+\* position that routes strings: every function argument, cond tests and values, asm steps, each list / key, behind a
+\* local value.  Whatever else happens, Execute must come back (Total / C06: the watchdog verdict is kind hang).
+PathLike == {Str(<<36, 53, 46, 48, 48>>), Str(<<64, 97, 108, 105, 99, 101>>), Str(<<36, 91>>), Str(<<36, 46>>)}
+PathLikePlans == {Call(f, <<j>>) : f \in Fns, j \in PathLike} \cup {Call(f, <<j, IntV(2)>>) : f \in Fns, j \in PathLike} \cup {Call(f, <<IntV(2), j>>) : f \in Fns, j \in PathLike}
+                 \cup {Call("cond", <<Pair(j, IntV(1)), Pair(Bool(TRUE), IntV(2))>>) : j \in PathLike} \cup {Call("cond", <<Pair(Bool(TRUE), j)>>) : j \in PathLike}
+                 \cup {Call("cond", <<Pair(Call("equal", <<j, j>>), j)>>) : j \in PathLike} \cup {Call("asm", <<j, Call("set", <<P(FALSE, <<C("asm"), C("r")>>), P(TRUE, <<>>)>>)>>) : j \in PathLike}
+                 \cup {Call("asm", <<Obj([keep |-> IntV(7)]), Call("cond", <<Pair(Bool(TRUE), j)>>), Call("set", <<P(FALSE, <<C("asm"), C("r")>>), P(TRUE, <<>>)>>)>>) : j \in PathLike}
+                 \cup {Call("each", <<Arr(<<IntV(1), IntV(2)>>), Call("set", <<P(TRUE, <<C("asm")>>), Call("cond", <<Pair(Call("equal", <<P(TRUE, <<C("src")>>), IntV(1)>>), j), Pair(Bool(TRUE), P(TRUE, <<C("src")>>))>>)>>)>>) : j \in PathLike}
+                 \cup {Call("each", <<j, Call("set", <<P(TRUE, <<C("asm")>>), IntV(1)>>)>>) : j \in PathLike} \cup {Call("each", <<Arr(<<IntV(1)>>), Call("set", <<P(TRUE, <<C("asm")>>), IntV(1)>>), j>>) : j \in PathLike}
+                 \cup {Call("list", <<j, Arr(<<j>>), Obj([k |-> j])>>) : j \in PathLike} \cup {Call("equal", <<j, j, j>>) : j \in PathLike}
+
 \* ------------------------------------------------------------------ families
 Both(ps, r) == {Case(Wrapped(p), r, FALSE) : p \in ps} \cup {Case(p, r, FALSE) : p \in ps}
 Cases ==
@@ -354,6 +368,7 @@ Cases ==
     [] Part = "bigint" -> {Case(Wrapped(p), R1, FALSE) : p \in BigPlans}
     [] Part = "implied" -> {Case(p, R1, b) : p \in ImpliedPlans, b \in BOOLEAN}
     [] Part = "route" -> {Case(p, R1, FALSE) : p \in RouteTable \cup RouteForms \cup TypedPairs}
+    [] Part = "pathlike" -> Both(PathLikePlans, R1)
     [] Part = "forms" -> Both(CondPlans \cup SortPlans \cup EachPlans, R1) \cup Both(SortPlans, R3)
     [] OTHER -> {}
 
